@@ -105,7 +105,7 @@ fn opts() -> Vec<Opt> {
         Opt { name: "log-format", section: "trippy", kind: Kind::Enum, vals: &["compact", "json", "chrome"], needs: &[], excl: &[], get: |c| dbg(c.log_format) },
         Opt { name: "log-filter", section: "trippy", kind: Kind::Str, vals: &["trippy=info", "x=debug"], needs: &[], excl: &[], get: |c| c.log_filter.clone() },
         Opt { name: "log-span-events", section: "trippy", kind: Kind::Enum, vals: &["active", "full"], needs: &[], excl: &[], get: |c| dbg(c.log_span_events) },
-        Opt { name: "protocol", section: "strategy", kind: Kind::Enum, vals: &["udp", "tcp"], needs: &[], excl: &["dns-resolve-all"], get: |c| dbg(c.protocol) },
+        Opt { name: "protocol", section: "strategy", kind: Kind::Enum, vals: &["udp", "tcp", "icmp"], needs: &[], excl: &["dns-resolve-all"], get: |c| dbg(c.protocol) },
         Opt { name: "addr-family", section: "strategy", kind: Kind::Enum, vals: &["ipv4", "ipv6", "ipv6-then-ipv4", "system"], needs: &[], excl: &[], get: |c| match format!("{:?}", c.addr_family).as_str() {
             "Ipv4Only" => "ipv4".into(),
             "Ipv6Only" => "ipv6".into(),
@@ -344,6 +344,13 @@ fn run_layer(seed: u64, n: usize, out: &str) -> (i32, Vec<Value>) {
             // (cli value, file value): absent / file / CLI / both (different values) / both (same) ; a flag in
             // the file layer may also be an explicit false
             let mut cells: Vec<(Option<&str>, Option<&str>)> = vec![(None, None), (None, Some(a)), (Some(a), None), (Some(a), Some(b)), (Some(b), Some(a))];
+            // the documented default given explicitly on the command line still beats another value in the file
+            let doc_raw: Option<String> = doc.clone().filter(|d| matches!(o.kind, Kind::Int | Kind::Dur | Kind::Enum) && !d.contains(' ') && d != "auto" && d != "none");
+            if let Some(d) = doc_raw.as_deref() {
+                if canon(o.kind, d) != canon(o.kind, a) {
+                    cells.push((Some(d), Some(a)));
+                }
+            }
             if o.kind == Kind::Flag {
                 cells.push((None, Some("false")));
                 cells.push((Some("true"), Some("false")));
